@@ -146,13 +146,25 @@ func (c *Ctx) watchdog() {
 		now := time.Now().UnixNano()
 		c.wmu.Lock()
 		var hung *W
+		running := false
 		for w := range c.live {
-			if t := atomic.LoadInt64(&w.t0); t != 0 && now-t > int64(c.CaseTimeout) {
+			t := atomic.LoadInt64(&w.t0)
+			running = running || t != 0
+			if t != 0 && now-t > int64(c.CaseTimeout) {
 				hung = w
 				break
 			}
 		}
 		c.wmu.Unlock()
+		if hung == nil && !running && c.onlySub == "" && now-atomic.LoadInt64(&lastProgress) > 4*int64(c.CaseTimeout) {
+			c.mu.Lock()
+			c.Rep.NViolations++
+			c.Rep.Violations = append(c.Rep.Violations, Violation{Sub: "(set-up between sub-spaces)", Index: -1, Key: "hang/setup", Config: c.Config, NoReplay: true,
+				Desc: fmt.Sprintf("no enumerated case has run for %v: the construction of an alphabet or fixture that calls the library does not terminate (on the unchanged tree these phases take seconds)", 4*c.CaseTimeout)})
+			c.Rep.Exhaustive = false
+			c.mu.Unlock()
+			c.Finish()
+		}
 		if hung == nil {
 			continue
 		}
@@ -187,7 +199,18 @@ func (w *W) begin(i int) {
 	atomic.StoreInt64(&w.t0, time.Now().UnixNano())
 }
 
-func (w *W) end() { atomic.StoreInt64(&w.t0, 0) }
+func (w *W) end() {
+	atomic.StoreInt64(&w.t0, 0)
+	atomic.StoreInt64(&lastProgress, time.Now().UnixNano())
+}
+
+// lastProgress is the time the last enumerated case finished (or the process started).  Between sub-spaces the harness
+// builds alphabets and fixtures, partly with library calls ("take generic strings until 32 of them decode"): a changed
+// library can make such a loop spin for ever.  That is the library's doing - on the unchanged tree the set-up phases
+// take seconds - so the watchdog reports a process that has no case running and has not finished one for
+// 4 x CaseTimeout (20 min by default) as the violation "hang/setup" instead of leaving it to the driver's
+// time limit (which could only call it a broken check).
+var lastProgress = time.Now().UnixNano()
 
 // Finish writes the report and exits (0 ok, 1 violations, 2 broken).
 func (c *Ctx) Finish() {
